@@ -263,8 +263,8 @@ End Generic.
 (* ---- the table of the code is the declarative list ---- *)
 Lemma esc_table_spec : esc_table_spec_stmt.
 Proof.
-  split; [reflexivity|]. intros c rest. unfold lex_esc_literal, rx_escape_class, mem, c_bsl.
-  cbn [existsb].
+  split; [reflexivity|]. intros c rest. unfold lex_esc_literal, lex_esc_table, rx_escape_class, mem, c_bsl.
+  cbn [existsb andb].
   generalize (match rest with d :: _ => is_xdigit d || (d =? 123)%N | [] => false end). intros h.
   btauto.
 Qed.
@@ -272,6 +272,10 @@ Qed.
 Lemma lex_esc_literal_b : forall rest, lex_esc_literal (c_b :: rest) = false.
 Proof. reflexivity. Qed.
 Lemma lex_esc_literal_orig_b : forall rest, lex_esc_literal_orig (c_b :: rest) = false.
+Proof. reflexivity. Qed.
+Lemma lex_esc_literal_dec_b : forall rest, lex_esc_literal_dec (c_b :: rest) = false.
+Proof. reflexivity. Qed.
+Lemma lex_esc_literal_orig_oct_b : forall rest, lex_esc_literal_orig_oct (c_b :: rest) = false.
 Proof. reflexivity. Qed.
 
 Lemma esc_image_t_code : forall iw pe c rest, esc_image_t lex_esc_literal iw pe c rest = esc_image iw pe c rest.
@@ -311,8 +315,10 @@ Proof. intros pe re. apply unescape_iw_spec. Qed.
 
 Lemma unescape_total : unescape_total_stmt.
 Proof.
-  intros et fixd kw pe re. destruct et; cbn [unescape_sel].
+  intros et eo fixd kw pe re. destruct et, eo; cbn [unescape_sel].
   - apply (unescape_gen_t_total lex_esc_literal lex_esc_literal_b).
+  - apply (unescape_gen_t_total lex_esc_literal_dec lex_esc_literal_dec_b).
+  - apply (unescape_gen_t_total lex_esc_literal_orig_oct lex_esc_literal_orig_oct_b).
   - apply (unescape_gen_t_total lex_esc_literal_orig lex_esc_literal_orig_b).
 Qed.
 
@@ -343,6 +349,54 @@ Proof.
   eexists. eexists.
   split; [vm_compute; reflexivity|]. split; [vm_compute; reflexivity|].
   split; [vm_compute; reflexivity|]. split; vm_compute; reflexivity.
+Qed.
+
+(* `\8` `\9` over the table that lists every digit *)
+Lemma esc_table_digit_refuted : esc_table_digit_refuted_stmt.
+Proof.
+  split.
+  { intros c Hc rest. unfold mem in Hc. cbn [existsb] in Hc. rewrite orb_false_r in Hc.
+    apply orb_true_iff in Hc. destruct Hc as [Hc|Hc]; apply N.eqb_eq in Hc; subst c; repeat split; reflexivity. }
+  split.
+  { intros c rest Hc. unfold mem in Hc. cbn [existsb] in Hc. rewrite orb_false_r in Hc.
+    apply orb_false_iff in Hc. destruct Hc as [H8 H9].
+    unfold lex_esc_literal_dec, lex_esc_literal, lex_esc_table. do 5 f_equal.
+    unfold is_digit, is_octal, in_range. apply N.eqb_neq in H8. apply N.eqb_neq in H9.
+    destruct (48 <=? c)%N; [|reflexivity]. cbn [andb].
+    destruct (c <=? 57)%N eqn:E1; destruct (c <=? 55)%N eqn:E2; try reflexivity.
+    - apply N.leb_le in E1. apply N.leb_gt in E2. lia.
+    - apply N.leb_gt in E1. apply N.leb_le in E2. lia. }
+  split; [|split; [|]].
+  - intros pe. eexists. eexists. split; [|split; [|split; [|split; [|split; [reflexivity|split; [reflexivity|]]]]]].
+    + reflexivity.
+    + destruct pe; vm_compute; reflexivity.
+    + destruct pe; vm_compute; discriminate.
+    + destruct pe; vm_compute; reflexivity.
+    + destruct pe; vm_compute; reflexivity.
+  - intros pe. eexists. eexists. split; [|split; [|split; [|split; [reflexivity|split; [reflexivity|]]]]].
+    + reflexivity.
+    + destruct pe; vm_compute; reflexivity.
+    + destruct pe; vm_compute; discriminate.
+    + destruct pe; vm_compute; reflexivity.
+  - intros pe re Hin. cbn [In] in Hin.
+    destruct Hin as [<-|[<-|[<-|[]]]]; destruct pe; split; vm_compute; reflexivity.
+Qed.
+
+Lemma lex_esc_digit_refuted : lex_esc_digit_refuted_stmt.
+Proof.
+  intros pe. eexists. eexists.
+  split; [destruct pe; vm_compute; reflexivity|]. split; [destruct pe; vm_compute; reflexivity|].
+  split; [destruct pe; vm_compute; reflexivity|]. split; destruct pe; vm_compute; reflexivity.
+Qed.
+
+Lemma nonoctal_digit_plain : nonoctal_digit_plain_stmt.
+Proof.
+  intros iw pe c Hc. unfold mem in Hc. cbn [existsb] in Hc. rewrite orb_false_r in Hc.
+  split.
+  - intros rest. apply orb_true_iff in Hc.
+    destruct Hc as [Hc|Hc]; apply N.eqb_eq in Hc; subst c; destruct iw, pe; reflexivity.
+  - apply orb_true_iff in Hc.
+    destruct Hc as [Hc|Hc]; apply N.eqb_eq in Hc; subst c; destruct iw, pe; vm_compute; reflexivity.
 Qed.
 
 (* `\qx\` : accepted as `q` *)
